@@ -180,7 +180,9 @@ func main() {
 			runWorkflowJob(&job, res)
 		default:
 			if f, ok := specialJobs[job.Kind]; ok {
+				vs.RaceMode = job.Race
 				f(&job, res)
+				reportRaces(&job, res)
 			} else {
 				res.Error = "unknown job kind " + job.Kind
 			}
@@ -326,6 +328,16 @@ func runWorkflowJob(job *Job, res *Result) {
 	if spec == nil {
 		spec = catalog(job.Scen)
 		res.Scenario = job.Scen.String()
+		if job.Scen.RevSrc {
+			for i := range spec.Procs {
+				if spec.Procs[i].Kind == "src" {
+					it := spec.Procs[i].Items
+					for a, b := 0, len(it)-1; a < b; a, b = a+1, b-1 {
+						it[a], it[b] = it[b], it[a]
+					}
+				}
+			}
+		}
 		if job.Scen.AbsSrc {
 			for i := range spec.Procs {
 				if spec.Procs[i].Kind == "src" {
@@ -541,31 +553,7 @@ func runWorkflowJob(job *Job, res *Result) {
 		}
 		sort.Slice(res.Crash, func(i, j int) bool { return res.Crash[i].ID < res.Crash[j].ID })
 	}
-	if job.Race && !job.NoRaceReport {
-		res.Races = vs.Races
-		keys := []string{}
-		for k := range vs.Races {
-			keys = append(keys, k)
-		}
-		sort.Strings(keys)
-		for _, k := range keys {
-			v := Violation{Prop: "C12", Class: "data-race", Detail: fmt.Sprintf("unsynchronised conflicting accesses %s (seen in %d executions of %s)", k, vs.Races[k], res.Scenario), Signature: "race|" + k, Job: job.ID}
-			if job.ReplayDir != "" {
-				os.MkdirAll(job.ReplayDir, 0777)
-				j := *job
-				j.Mode = "replay"
-			j.PureBuf = vs.PureBuf
-				j.Replay = vs.RaceInfo[k]
-				j.Base = ""
-				j.Budget = 0
-				fn := filepath.Join(job.ReplayDir, fmt.Sprintf("%s-%x.json", sanitize(job.ID), hash32(v.Signature)))
-				b, _ := json.MarshalIndent(map[string]interface{}{"job": j, "violation": v}, "", " ")
-				os.WriteFile(fn, b, 0644)
-				v.Replay = fn
-			}
-			res.Violations = append(res.Violations, v)
-		}
-	}
+	reportRaces(job, res)
 	// oracles over the whole exploration
 	r.checkExploration()
 	if len(res.Outcomes) > 40 {
@@ -688,4 +676,33 @@ func hash32(s string) uint32 {
 		h *= 16777619
 	}
 	return h
+}
+
+// reportRaces: the data races the happens-before monitor saw in this job's executions (race build)
+func reportRaces(job *Job, res *Result) {
+	if job.Race && !job.NoRaceReport {
+		res.Races = vs.Races
+		keys := []string{}
+		for k := range vs.Races {
+			keys = append(keys, k)
+		}
+		sort.Strings(keys)
+		for _, k := range keys {
+			v := Violation{Prop: "C12", Class: "data-race", Detail: fmt.Sprintf("unsynchronised conflicting accesses %s (seen in %d executions of %s)", k, vs.Races[k], res.Scenario), Signature: "race|" + k, Job: job.ID}
+			if job.ReplayDir != "" {
+				os.MkdirAll(job.ReplayDir, 0777)
+				j := *job
+				j.Mode = "replay"
+				j.PureBuf = vs.PureBuf
+				j.Replay = vs.RaceInfo[k]
+				j.Base = ""
+				j.Budget = 0
+				fn := filepath.Join(job.ReplayDir, fmt.Sprintf("%s-%x.json", sanitize(job.ID), hash32(v.Signature)))
+				b, _ := json.MarshalIndent(map[string]interface{}{"job": j, "violation": v}, "", " ")
+				os.WriteFile(fn, b, 0644)
+				v.Replay = fn
+			}
+			res.Violations = append(res.Violations, v)
+		}
+	}
 }
